@@ -32,17 +32,24 @@ MODES = [("normal", []), ("-O", ["-O"]), ("-OO", ["-OO"])]
 SLOWS = [("unset", None), ("empty", ""), ("set", "1")]
 
 
+BASES = ["bare", "contracted", "foreign-over-contracted"]
+
+
 def cells():
     for d in DECOS:
         for e in ENABLED:
             for k in (INV_KINDS if d == "invariant" else KINDS):
-                yield d, e, k
+                for b in (["bare"] if d == "invariant" else BASES):
+                    yield d, e, k, b
 
 
 # ---- worker side ------------------------------------------------------------------------------------------------
 
-def eval_cell(deco, enabled, kind):
+def eval_cell(deco, enabled, kind, base="bare"):
     """Runs inside a worker. Returns observations (no verdicts here)."""
+    import functools
+    import inspect
+
     import icontract
     from vf.progmodel.run import drive
 
@@ -125,6 +132,22 @@ def eval_cell(deco, enabled, kind):
             counters["body"] += 1
             return x
     orig.marker = "kept"
+    if base != "bare":
+        # the object handed to the decorator under test already carries an (enabled, satisfied) contract,
+        # optionally below a foreign functools.wraps decorator
+        orig = icontract.require(lambda: True, enabled=True)(orig)
+        if base == "foreign-over-contracted":
+            inner = orig
+            if inspect.iscoroutinefunction(inner):
+                @functools.wraps(inner)
+                async def orig(*a, **k):  # noqa
+                    counters["foreign"] = counters.get("foreign", 0) + 1
+                    return await inner(*a, **k)
+            else:
+                @functools.wraps(inner)
+                def orig(*a, **k):  # noqa
+                    counters["foreign"] = counters.get("foreign", 0) + 1
+                    return inner(*a, **k)
     before = dict(vars(orig))
     target = orig
     if deco == "snapshot":
@@ -167,6 +190,7 @@ def eval_cell(deco, enabled, kind):
     except BaseException as e:  # noqa
         obs["raised"] = "%s: %s" % (type(e).__name__, e)
     obs["counters"] = dict(counters)
+    obs["foreign_ran"] = (counters.get("foreign", 0) > 0) if base == "foreign-over-contracted" else None
     return obs
 
 
@@ -174,9 +198,9 @@ def worker():
     core.setup_repo_path()
     tasks = json.load(sys.stdin)
     out = {"cells": [], "programs": []}
-    for d, e, k in tasks["cells"]:
+    for d, e, k, b in tasks["cells"]:
         try:
-            out["cells"].append(eval_cell(d, e, k))
+            out["cells"].append(eval_cell(d, e, k, b))
         except BaseException as ex:  # noqa
             out["cells"].append({"error": "%s: %s" % (type(ex).__name__, ex)})
     from vf.progmodel import harness as H
@@ -271,15 +295,15 @@ def run(ctx, tier, seed, shard, nshards):
             results[key] = f.result()
     # (1) matrix
     for (mname, sname, slow), res in results.items():
-        for (d, e, k), obs in zip(all_cells, res["cells"]):
-            case = {"cell": [d, e, k], "mode": mname, "slow": sname}
+        for (d, e, k, bs), obs in zip(all_cells, res["cells"]):
+            case = {"cell": [d, e, k, bs], "mode": mname, "slow": sname}
             ctx.case(case, mname != "normal" or sname == "set", sample=dict(case, observed=obs))
             ctx.count("interpreter:" + mname)
             if "error" in obs:
                 ctx.fail("cell-error|%s|%s|%s" % (d, e, k), case, "cell raised inside the worker: %s" % obs["error"])
                 continue
             exp = expected_enabled(e, mname, slow)
-            tag = "%s|enabled=%s|%s|%s|ICONTRACT_SLOW=%s" % (d, e, k, mname, sname)
+            tag = "%s|enabled=%s|%s/%s|%s|ICONTRACT_SLOW=%s" % (d, e, k, bs, mname, sname)
             calls = obs["counters"]["cap" if d == "snapshot" else "cond"]
             if not exp:
                 bad = []
@@ -291,6 +315,8 @@ def run(ctx, tier, seed, shard, nshards):
                     bad.append("the condition/capture was called %d times" % calls)
                 if obs["raised"]:
                     bad.append("the call raised %s" % obs["raised"])
+                if obs.get("foreign_ran") is False:
+                    bad.append("the foreign decorator on the stack was not executed any more")
                 if bad:
                     ctx.fail("disabled-not-absent|" + tag, case, "expected DISABLED (%s): %s" % (tag, "; ".join(bad)))
             else:
@@ -299,6 +325,8 @@ def run(ctx, tier, seed, shard, nshards):
                     bad.append("the violating call raised %r" % obs["raised"])
                 if not calls:
                     bad.append("the condition/capture was never called")
+                if obs.get("foreign_ran") is False and d != "snapshot":
+                    bad.append("the foreign decorator on the stack was not executed any more")
                 if bad:
                     ctx.fail("enabled-not-enforced|" + tag, case, "expected ENABLED (%s): %s" % (tag, "; ".join(bad)))
     ctx.exhaustive = True
@@ -338,10 +366,11 @@ def run(ctx, tier, seed, shard, nshards):
 
 def replay(ctx, case):
     if "cell" in case:
-        d, e, k = case["cell"]
+        d, e, k = case["cell"][:3]
+        bs = case["cell"][3] if len(case["cell"]) > 3 else "bare"
         mode = dict(MODES)[case["mode"]]
         slow = dict(SLOWS)[case["slow"]]
-        res = spawn(mode, slow, json.dumps({"cells": [[d, e, k]], "programs": []}))
+        res = spawn(mode, slow, json.dumps({"cells": [[d, e, k, bs]], "programs": []}))
         obs = res["cells"][0]
         exp = expected_enabled(e, case["mode"], slow)
         calls = obs.get("counters", {}).get("cap" if d == "snapshot" else "cond", 0)
